@@ -453,6 +453,23 @@ def step (s : IOState) : List String → IOState × String
       let pop := ps.mapIdx (fun i p => ({ index := p.1, cur := p.2, env := p.2, tag := i } : Agent))
       ({ s with st := { s.st with pop := pop } }, "ok")
     | none => (s, "bad-op")
+  | "agent" :: idx :: fit :: ws =>
+    -- one more agent of the initial population, with its history: index, len(fitness), the whole
+    -- `steps` list (a population that was trained before, or restored from a checkpoint)
+    match parseNat? idx, parseNat? fit, parseNats? ws with
+    | some idx, some fit, some steps =>
+      match steps.reverse with
+      | [] => (s, "reject")                                -- `agent.steps[-1]` raises on an empty list
+      | cur :: past =>
+        let a : Agent := { index := idx, cur := cur, past := past, fit := fit, env := cur,
+                           tag := s.st.pop.length }
+        ({ s with st := { s.st with pop := s.st.pop ++ [a] } }, "ok")
+    | _, _, _ => (s, "bad-op")
+  | ["mem", l, c, p] =>
+    -- state of the (shared) replay memory when the training function is entered
+    match parseNats? [l, c, p] with
+    | some [l, c, p] => ({ s with st := { s.st with mem := { len := l, counter := c, pushes := p } } }, "ok")
+    | _ => (s, "bad-op")
   | ["cond"] => (s, showBool (!s.st.halted && cond s.cfg s.st.pop))
   | "gen" :: ab :: ws =>
     -- above  ls bs ls bs …  : training + evaluation of one generation (if the loop is still running)
